@@ -380,21 +380,14 @@ func runReadByte(c *core.Ctx, id string, k kase) {
 		det.Variant += "+mixed-with-Read"
 	}
 	limit := 2*len(want) + 64
-	zeroRun := 0
 	var lastErr error
 	for s.calls < limit && s.breach == nil {
 		if mixed && rng.Intn(4) == 0 {
-			n, err := s.Read(make([]byte, 1+rng.Intn(300)))
-			if err != nil {
+			// a Read that returns (0, nil) is legal; the underlying readers never do it twice in a
+			// row, so 2*len+64 calls always suffice for a conforming byte reader
+			if _, err := s.Read(make([]byte, 1+rng.Intn(300))); err != nil {
 				lastErr = err
 				break
-			}
-			if n == 0 {
-				if zeroRun++; zeroRun > 8 {
-					break
-				}
-			} else {
-				zeroRun = 0
 			}
 			continue
 		}
